@@ -684,7 +684,136 @@ def gen_zero_length_path_pair(rng):
     return p1, p2, scale, where
 
 
-def run_paths(rep, K, tmp, rng, n, secs, only=None, zero_pairs=0):
+# ---- histories: measure / intersect, edit in place through the sequence API, intersect again
+def apply_history(spec):
+    """(edited Path object, probe used for priming) for a history spec
+    {'base': [descs], 'prime': 'length'|'point'|'intersect'|'none', 'probe': [descs], 'ops': [...]}"""
+    from svgpathtools import Path
+    path = Path(*[ic.mkseg(d) for d in spec['base']])
+    pr = spec['prime']
+    if pr == 'length':
+        path.length()
+    elif pr == 'point':
+        path.point(0.3)
+    elif pr == 'intersect':
+        try:
+            path.intersect(Path(*[ic.mkseg(d) for d in spec['probe']]))
+        except Exception:
+            pass
+    for op in spec['ops']:
+        k = op[0]
+        if k == 'set': path[op[1]] = ic.mkseg(op[2])
+        elif k == 'insert': path.insert(op[1], ic.mkseg(op[2]))
+        elif k == 'append': path.append(ic.mkseg(op[1]))
+        elif k == 'del': del path[op[1]]
+        elif k == 'pop': path.pop()
+        elif k == 'start': path.start = op[1]
+        elif k == 'end': path.end = op[1]
+    return path
+
+
+def spec_hex(spec):
+    def oh(op):
+        return [ic.desc_hex(x) if isinstance(x, tuple) else (common.chex(x) if isinstance(x, complex) else x) for x in op]
+    return {'base': [ic.desc_hex(d) for d in spec['base']], 'prime': spec['prime'],
+            'probe': [ic.desc_hex(d) for d in spec['probe']], 'ops': [oh(op) for op in spec['ops']],
+            'operand': spec['operand'], 'other': [ic.desc_hex(d) for d in spec['other']]}
+
+
+def spec_unhex(h):
+    def ou(op):
+        out = [op[0]]
+        for x in op[1:]:
+            if isinstance(x, list) and x and isinstance(x[0], str) and x[0] in ('L', 'Q', 'C', 'A'):
+                out.append(ic.desc_unhex(x))
+            elif isinstance(x, list):
+                out.append(complex(float.fromhex(x[0]), float.fromhex(x[1])))
+            else:
+                out.append(x)
+        return tuple(out)
+    return {'base': [ic.desc_unhex(d) for d in h['base']], 'prime': h['prime'],
+            'probe': [ic.desc_unhex(d) for d in h['probe']], 'ops': [ou(op) for op in h['ops']],
+            'operand': h['operand'], 'other': [ic.desc_unhex(d) for d in h['other']]}
+
+
+def chain_segments(rng, n, scale):
+    pts = [ic.rnd_c(rng, scale)]
+    segs = []
+    for i in range(n):
+        nxt = pts[-1] + ic.unit(rng) * scale * rng.uniform(0.5, 1.5)
+        k = rng.choice(['L', 'L', 'L', 'Q', 'C'])
+        if k == 'L':
+            segs.append(('L', pts[-1], nxt))
+        elif k == 'Q':
+            segs.append(('Q', pts[-1], (pts[-1] + nxt) / 2 + ic.rnd_c(rng, 0.3 * scale), nxt))
+        else:
+            segs.append(('C', pts[-1], pts[-1] + ic.rnd_c(rng, 0.4 * scale), nxt + ic.rnd_c(rng, 0.4 * scale), nxt))
+        pts.append(nxt)
+    return segs
+
+
+def crossers(rng, targets, scale, n):
+    out = []
+    for j in range(n):
+        s1 = ic.mkseg(rng.choice(targets))
+        t1 = rng.uniform(0.25, 0.75)
+        P = s1.point(t1); tan = s1.derivative(t1)
+        if abs(tan) == 0:
+            continue
+        ang = math.radians(rng.choice([1, -1]) * rng.uniform(40, 90))
+        dirn = tan / abs(tan) * complex(math.cos(ang), math.sin(ang))
+        out.append(ic.bezier_through(rng, rng.choice(['L', 'L', 'Q']), P, rng.uniform(0.3, 0.7), dirn, 0.4 * scale))
+    return out
+
+
+def gen_history_case(rng):
+    """a history spec: build, measure (length / point / a first intersect), edit in place
+    (setitem with a segment of different length, insert, append, del, pop, start / end
+    setter), then the edited path is intersected as operand 1 or 2 with a path crossing
+    its CURRENT segments"""
+    scale = rng.choice([1.0, 10.0, 100.0])
+    base = chain_segments(rng, rng.randint(2, 4), scale)
+    spec = {'base': base, 'prime': rng.choice(['length', 'point', 'intersect', 'intersect']),
+            'probe': crossers(rng, base, scale, 1) or [('L', base[0][1] - 1j * scale, base[0][1] + 1j * scale)],
+            'ops': [], 'operand': rng.choice([1, 2]), 'other': []}
+    kind = rng.choice(['set', 'insert', 'append', 'del', 'pop', 'start', 'end', 'insert+set', 'del+append'])
+    n = len(base)
+    far = lambda z: z + ic.unit(rng) * scale * rng.uniform(3, 6)
+    ops = []
+    for k in kind.split('+'):
+        if k == 'set':
+            i = rng.randrange(n)
+            ops.append(('set', i, ('L', base[i][1], far(base[i][1]))))          # much longer than the old one
+        elif k == 'insert':
+            i = rng.choice([0, 0, rng.randrange(n)])
+            z = base[i][1]
+            ops.append(('insert', i, ('L', far(z), z)))
+        elif k == 'append':
+            z = base[-1][-1]
+            ops.append(('append', ('L', z, far(z))))
+        elif k == 'del':
+            ops.append(('del', rng.randrange(n - 1)))                            # not the last: later T's shift
+        elif k == 'pop':
+            ops.append(('pop',))
+        elif k == 'start':
+            ops.append(('start', far(base[0][1])))
+        elif k == 'end':
+            ops.append(('end', far(base[-1][-1])))
+    spec['ops'] = ops
+    spec['edit'] = kind
+    try:
+        final = [ic.desc_of(s) for s in apply_history(dict(spec, prime='none'))]
+    except Exception:
+        return None
+    if not final:
+        return None
+    spec['other'] = crossers(rng, final, scale, rng.randint(1, 2))
+    if not spec['other']:
+        return None
+    return spec, final, scale
+
+
+def run_paths(rep, K, tmp, rng, n, secs, only=None, zero_pairs=0, histories=0, hist_only=None):
     from svgpathtools import Path, Arc
     g4, g4meta, pcases = [], [], []
     stats = collections.Counter()
@@ -697,8 +826,34 @@ def run_paths(rep, K, tmp, rng, n, secs, only=None, zero_pairs=0):
             p1d, p2d, scale, where = r
             stats['zero-length-line paths: ' + where] += 1
             todo.append((p1d, p2d, scale, None)); todo.append((p2d, p1d, scale, None))     # both operands
-    for p1d, p2d, scale, tol in todo:
+    todo = [t + (None,) for t in todo]
+    hspecs = list(hist_only) if hist_only else []
+    for i in range(histories):
+        r = gen_history_case(rng)
+        if r:
+            hspecs.append(r)
+    for spec, final, scale in hspecs:
+        stats['history: ' + spec.get('edit', '?') + ' after ' + spec['prime']] += 1
+        if spec['operand'] == 1:
+            todo.append((final, spec['other'], scale, None, spec))
+        else:
+            todo.append((spec['other'], final, scale, None, spec))
+    for p1d, p2d, scale, tol, spec in todo:
         path1 = Path(*[ic.mkseg(d) for d in p1d]); path2 = Path(*[ic.mkseg(d) for d in p2d])
+        # the same segments in freshly built paths: the lengths the T's must refer to
+        fresh1, fresh2 = Path(*[ic.mkseg(d) for d in p1d]), Path(*[ic.mkseg(d) for d in p2d])
+        if spec is not None:
+            try:
+                edited = apply_history(spec)
+            except Exception as e:
+                K.add('path-history-edit-raises', 'C11: an in-place edit of a Path raised %r' % (e,),
+                      {'kind': 'path-history', 'history': spec_hex(spec)}, scale)
+                continue
+            if spec['operand'] == 1:
+                path1 = edited
+            else:
+                path2 = edited
+            stats['history_cases'] += 1
         if path1 == path2:
             continue
         if tol is None:
@@ -708,6 +863,18 @@ def run_paths(rep, K, tmp, rng, n, secs, only=None, zero_pairs=0):
         stats['path_pairs'] += 1
         replay = {'kind': 'path', 'path1': [ic.desc_hex(d) for d in p1d], 'path2': [ic.desc_hex(d) for d in p2d],
                   'tol': tol, 'path1_repr': repr(path1), 'path2_repr': repr(path2)}
+        if spec is not None:
+            replay = {'kind': 'path-history', 'history': spec_hex(spec), 'edit': spec.get('edit'), 'prime': spec['prime'],
+                      'edited_operand': spec['operand'], 'path1_repr': repr(path1), 'path2_repr': repr(path2),
+                      'how': './check C11 --replay <this file>'}
+            if st == 'exc':
+                st2, val2 = ic.guarded(lambda: fresh1.intersect(fresh2), secs)
+                if st2 == 'ok':
+                    K.add('path-intersect-history-raises',
+                          'C11: Path.intersect raises %r after the history [%s, then %s] on operand %d; freshly built paths of '
+                          'the same segments intersect without error' % (val, spec['prime'], spec.get('edit'), spec['operand']),
+                          replay, scale)
+                    continue
         if st == 'timeout':
             stats['timeouts'] += 1; continue
         haszero = any(is_zero_line(d) for d in p1d + p2d)
@@ -729,7 +896,9 @@ def run_paths(rep, K, tmp, rng, n, secs, only=None, zero_pairs=0):
             continue
         if not val:
             continue
-        lens1 = [float(x) for x in path1._lengths]; lens2 = [float(x) for x in path2._lengths]
+        # length fractions of the CURRENT segments (freshly built paths), not whatever the object cached
+        fresh1._calc_lengths(); fresh2._calc_lengths()
+        lens1 = [float(x) for x in fresh1._lengths]; lens2 = [float(x) for x in fresh2._lengths]
         size = max(max(ic.seg_size(s) for s in path1), max(ic.seg_size(s) for s in path2))
         for (T1, seg1, t1), (T2, seg2, t2) in val:
             stats['path_entries'] += 1
@@ -742,14 +911,22 @@ def run_paths(rep, K, tmp, rng, n, secs, only=None, zero_pairs=0):
             T1, t1, T2, t2 = float(T1), float(t1), float(T2), float(t2)
             hasarc = isinstance(seg1, Arc) or isinstance(seg2, Arc)
             tf = 1e-3 if hasarc else 1e-5
-            pts = [path1.point(T1), seg1.point(t1), seg2.point(t2), path2.point(T2)]
+            try:
+                pts = [path1.point(T1), seg1.point(t1), seg2.point(t2), path2.point(T2)]
+            except Exception as e:
+                K.add('path-intersect-T-incoherent' + ('-after-edit' if spec is not None else ''),
+                      'C11: path.point(T) raises %r for a returned T' % (e,), replay, scale)
+                continue
             # T must be the path parameter of the OCCURRENCE the entry came from
             for lens, idx, t, T, pth, sg, which in ((lens1, i1[0], t1, T1, path1, seg1, 1), (lens2, i2[0], t2, T2, path2, seg2, 2)):
                 g4.append('(%s, %d, %s, %s)' % (coq_list([qc(x) for x in lens]), idx, qc(t), qc(T)))
                 dupseg = sum(1 for s in pth if s == sg) > 1
                 g4meta.append((replay, which, dupseg, scale))
             if abs(pts[0] - pts[1]) > 1e-9 * size or abs(pts[3] - pts[2]) > 1e-9 * size:
-                K.add('path-intersect-T-incoherent', 'C11: path.point(T) differs from seg.point(t): %s' % pts, replay, scale)
+                K.add('path-intersect-T-incoherent' + ('-after-edit' if spec is not None else ''),
+                      'C11: path.point(T) differs from seg.point(t)%s: %s'
+                      % (' after the history [%s, then %s]' % (spec['prime'], spec.get('edit')) if spec is not None else '', pts),
+                      replay, scale)
             psize = ic.pair_size(seg1, seg2)
             if abs(pts[1] - pts[2]) > tf * psize:
                 core = core_of(p1d[i1[0]], p2d[i2[0]])
@@ -764,6 +941,11 @@ def run_paths(rep, K, tmp, rng, n, secs, only=None, zero_pairs=0):
             K.add(ic.pinned_key('path-intersect-index-duplicate-segment', ic.detect_variants()['idx_fixed']),
                   'C11: Path.intersect returns, for a segment object that occurs at a later position of path%d, the T of the first '
                   'EQUAL segment (t2T uses list.index): T does not belong to the traversal the entry came from' % which,
+                  replay, scale)
+        elif replay.get('kind') == 'path-history':
+            K.add('path-intersect-T-stale-after-edit',
+                  'C11: after the history [%s, then %s] Path.intersect returns a T for path%d that is not t2T(position, t) for the '
+                  'length fractions of the path\'s CURRENT segments' % (replay.get('prime'), replay.get('edit'), which),
                   replay, scale)
         else:
             K.add('path-intersect-T-model', 'C11 model tie: T != t2T(lengths, index, t) for path%d' % which, replay, scale)
@@ -785,7 +967,12 @@ def run(rep, tier, seed, replay=None):
         boost = 2 if (info['agree_failed'] or info['untranslated'].keys() - {'gen_bezier_by_line_2', 'gen_box_extent'}) else 1
         if replay:
             r = json.load(open(replay))['replay']
-            if r.get('kind') == 'path':
+            if r.get('kind') == 'path-history':
+                spec = spec_unhex(r['history'])
+                spec['edit'] = r.get('edit')
+                final = [ic.desc_of(sg) for sg in apply_history(dict(spec, prime='none'))]
+                run_paths(rep, K, tmp, rng, 0, secs, only=[], hist_only=[(spec, final, 1.0)])
+            elif r.get('kind') == 'path':
                 # re-run the path pair
                 p1 = [ic.desc_unhex(h) for h in r['path1']]; p2 = [ic.desc_unhex(h) for h in r['path2']]
                 run_paths(rep, K, tmp, rng, 0, secs, only=[(p1, p2, 1.0, r.get('tol'))])
@@ -816,7 +1003,12 @@ def run(rep, tier, seed, replay=None):
         for k_, v_ in zstats.items():
             pstats[k_] = pstats.get(k_, 0) + v_
         n4 += n6
-        e4 = e4 + e5 + e6
+        # histories (drawn last as well): measure, edit in place, intersect again
+        hstats, n7, e7 = run_paths(rep, K, tmp, rng, 0, secs, only=[], histories=(40 if quick else 400) * boost)
+        for k_, v_ in hstats.items():
+            pstats[k_] = pstats.get(k_, 0) + v_
+        n4 += n7
+        e4 = e4 + e5 + e6 + e7
         for e in e1 + e2 + e3 + e4:
             rep.violation('C11 model-tie case file failed to evaluate', {'kind': 'cases', 'error': e},
                           found_input=False, key='cases-error')
@@ -825,7 +1017,8 @@ def run(rep, tier, seed, replay=None):
         rep.cov['traces_validated_against_impl'] = n1 + n2 + n3 + n4 + n5
         rep.cov['distinct_nontrivial'] = nontriv + pstats.get('path_entries', 0)
         rep.cov['rule'] = ('all 16 ordered kind pairs x {crossing (two segments built through a common point), touching '
-                           '(T-junction), disjoint, near-miss (gap 1e-7..1e-3 x size), random}, plus, for the 9 Bezier kind pairs, contact exactly '
+                           '(T-junction), disjoint, near-miss (gap 1e-7..1e-3 x size), random}, paths incl. zero-length Lines and '
+                           'HISTORIES (measure/intersect, edit in place via setitem/insert/append/del/pop/start/end, intersect again), plus, for the 9 Bezier kind pairs, contact exactly '
                            'on an edge of the control-polygon boxes (chains, chords through both end points, axis-parallel '
                            'departures; integer coordinates), scales 0.01..1000, arcs circular/'
                            'elliptic, rotated or not; non-trivial = at least one pair returned by either operand order (paths: '
